@@ -277,7 +277,8 @@ func TestC16(t *testing.T) {
 	// echo replies from a tracked station in a process that has used Ping before (the ping machinery is process-wide):
 	// the earlier pings are long over, so a reply with whatever identifier is an ordinary frame of a tracked host
 	type c16Echo struct {
-		Pings int    `json:"pings"` // pings issued (and timed out or refused) before the measurement
+		Flight bool   `json:"flight,omitempty"` // a ping of this process (to a station that does not answer) is still waiting while the frames are measured
+		Pings  int    `json:"pings"`            // pings issued (and timed out or refused) before the measurement
 		V6    bool   `json:"v6"`
 		Type  byte   `json:"type"`
 		ID    uint16 `json:"id"`
@@ -288,7 +289,7 @@ func TestC16(t *testing.T) {
 		if v6 {
 			typ = rapid.SampledFrom([]byte{129, 129, 128}).Draw(t, "type6")
 		}
-		return c16Echo{Pings: rapid.IntRange(0, 2).Draw(t, "pings"), V6: v6, Type: typ, ID: rapid.Uint16().Draw(t, "id")}
+		return c16Echo{Pings: rapid.IntRange(0, 2).Draw(t, "pings"), V6: v6, Type: typ, ID: rapid.Uint16().Draw(t, "id"), Flight: rapid.IntRange(0, 4).Draw(t, "flight") == 0}
 	}, func(tb drv.TB, c c16Echo) {
 		rec.Eval()
 		drv.Begin("C16", "echo-after-ping", 'J', mustJSON(c), 30*time.Second)
@@ -308,6 +309,21 @@ func TestC16(t *testing.T) {
 		run := func() { s.Parse(buf) }
 		run()
 		run() // tracked and online now
+		if c.Flight { // somebody else's ping is pending for the whole measurement (it times out afterwards)
+			done := make(chan struct{})
+			go func() {
+				defer close(done)
+				s.Ping(packet.Addr{MAC: hw(w.Clients[2]), IP: netip.MustParseAddr("192.168.0.7")}, 250*time.Millisecond)
+			}()
+			defer func() { <-done }()
+			for i := 0; i < 200 && packet.VerifPingWaiters() == 0; i++ {
+				time.Sleep(time.Millisecond)
+			}
+			if packet.VerifPingWaiters() == 0 {
+				rec.Class("inconclusive: the background ping did not register in time")
+				return
+			}
+		}
 		measure := func() float64 { return testing.AllocsPerRun(20, run) }
 		if a := measure(); a != 0 {
 			if a2, a3 := measure(), measure(); a2 != 0 && a3 != 0 {
